@@ -239,6 +239,13 @@ theorem C03_wait_until_served_router (sch : Router.Scheme) (N p : Nat) (hp : 0 <
       run (N * p) (Router.nextHop sch p) s ls = some s' ∧ (r, u) ∈ s'.executed :=
   C03_wait_until_served (N * p) _ _ (router_inRange sch N p) (router_progress sch N p hp) ls0 s h0 r u hat
 
+/-- ... and under every well-formed placement of ranks on nodes -/
+theorem C03_wait_until_served_routerP (P : RouterP.Placement) (hP : P.WF) (sch : Router.Scheme)
+    (ls0 : List Label) (s : St) (h0 : run P.size (P.nextHop sch) St.init ls0 = some s) (r u : Nat) (hat : AtR r u s) :
+    ∃ ls s', (∀ l ∈ ls, ownRecv r l = true) ∧ ls.length ≤ total P.size (fun x d => P.hopsLeft sch x d) s ∧
+      run P.size (P.nextHop sch) s ls = some s' ∧ (r, u) ∈ s'.executed :=
+  C03_wait_until_served P.size _ _ (routerP_inRange P hP sch) (routerP_progress P hP sch) ls0 s h0 r u hat
+
 /-! non-vacuity: rank 0 sends 8 then 7 to rank 1 and flushes; rank 1, polling alone, executes 7 (after 8) -/
 private def nhD (_ d : Nat) : Nat := d
 example : ((run 2 nhD St.init [.async 0 8 1 false, .isend 0 1, .async 0 7 1 false, .isend 0 1]).map
